@@ -298,8 +298,22 @@ class JsonHistoryGC(threading.Thread):
                     hist = lj.load()
                     lj.close()
                     hist["locked"] = False
-                    with open(f, "w", newline="\n", encoding="utf-8") as fp:
-                        xlj.ljdump(hist, fp, sort_keys=True)
+                    # Atomic write (temp file, then os.replace()), as in
+                    # JsonHistoryFlusher.dump(): a crash or a failing write
+                    # must not leave a truncated history file behind.
+                    fd, tmpname = tempfile.mkstemp(
+                        dir=os.path.dirname(f), suffix=".json.tmp"
+                    )
+                    try:
+                        with os.fdopen(fd, "w", newline="\n", encoding="utf-8") as fp:
+                            xlj.ljdump(hist, fp, sort_keys=True)
+                        os.replace(tmpname, f)
+                    except OSError:
+                        try:
+                            os.unlink(tmpname)
+                        except OSError:
+                            pass
+                        raise
                     lj = xlj.LazyJSON(f, reopen=False)
                 if only_unlocked and lj.get("locked", False):
                     continue
